@@ -41,7 +41,7 @@ Modes == IF ALLMODES THEN 0..4095 ELSE Cover
 PermOperands == {0, 1, 4, 18, 73, 146, 292, 384, 420, 448, 493, 511, 1024, 2048, 2541, 3072, 4095}
 
 Whos == (SUBSET {"u", "g", "o"}) \ {{}}
-PermSets == {{}, {"r"}, {"w"}, {"x"}, {"r", "w"}, {"r", "x"}, {"r", "w", "x"}, {"s"}, {"t"}, {"x", "s"}, {"r", "w", "x", "s", "t"}}
+PermSets == {{}, {"r"}, {"w"}, {"x"}, {"r", "w"}, {"r", "x"}, {"r", "w", "x"}, {"s"}, {"t"}, {"x", "s"}, {"r", "w", "x", "s", "t"}, {"X"}, {"r", "X"}}
 Acts == {[op |-> o, perms |-> ps, copy |-> ""] : o \in {"+", "-", "="}, ps \in PermSets}
         \cup {[op |-> o, perms |-> {}, copy |-> c] : o \in {"+", "="}, c \in {"u", "g", "o"}}
 Second == {[op |-> "+", perms |-> {"x"}, copy |-> ""], [op |-> "-", perms |-> {"w"}, copy |-> ""], [op |-> "=", perms |-> {"r"}, copy |-> ""],
@@ -93,7 +93,13 @@ SamefileLaw ==
      /\ \A k \in DOMAIN ents : ents[k].node \in {2, 4} => TestHolds(TREE, cfg, ents[k], test)
      /\ cfgmode = "P" => \A k \in DOMAIN ents : ents[k].node = 10 => ~TestHolds(TREE, cfg, ents[k], test)
 \* a symbolic mode and its octal value are the same operand
-SymLaw == (picked /\ FLAVOUR = "sym") => test.m \in 0..4095
+SymLaw == (picked /\ FLAVOUR = "sym") =>
+  /\ test.m \in 0..4095
+  \* for a directory X is x; for another file it adds nothing the mode did not have; without X and without "=" the two values agree
+  /\ BitsOf(test.m) \subseteq BitsOf(SymbolicValueFor(sym, TRUE)) \/ \E c \in DOMAIN sym : \E a \in DOMAIN sym[c].acts : sym[c].acts[a].op # "+"
+  /\ (\A c \in DOMAIN sym : \A a \in DOMAIN sym[c].acts : "X" \notin sym[c].acts[a].perms /\ sym[c].acts[a].op # "=") => SymbolicValueFor(sym, TRUE) = test.m
+  \* ... and they never differ in anything but the execute bits and the two bits a directory keeps under "="
+  /\ (BitsOf(SymbolicValueFor(sym, TRUE)) \ BitsOf(test.m)) \cup (BitsOf(test.m) \ BitsOf(SymbolicValueFor(sym, TRUE))) \subseteq {0, 3, 6, 10, 11}
 
 EmitVectors ==
   (EMIT /\ picked) =>
@@ -101,5 +107,7 @@ EmitVectors ==
         IF FLAVOUR = "tree"
         THEN [in |-> [tree |-> TREE, roots |-> roots, cfg |-> [cfg EXCEPT !.prune = <<>>], test |-> test], exp |-> [paths |-> sel.paths]]
         ELSE [in |-> [modes |-> IF ALLMODES THEN "all" ELSE "cover", cover |-> SetToSeq(Cover), kind |-> test.kind, m |-> test.m, text |-> SymbolicText(sym)],
-              exp |-> [sel |-> SetToSeq({b \in Modes : PermMatch(test.kind, test.m, b)})]])>>)
+              \* sel: which of the files are selected; seld: which of the directories carrying the same modes
+              exp |-> [sel |-> SetToSeq({b \in Modes : PermMatch(test.kind, test.m, b)}),
+                       seld |-> SetToSeq({b \in Modes : PermMatch(test.kind, IF FLAVOUR = "sym" THEN SymbolicValueFor(sym, TRUE) ELSE test.m, b)})]])>>)
 =============================================================================
